@@ -6,13 +6,24 @@ container drop achieves.
 import HipVerif.Lemmas.SlotsThin
 namespace HipVerif.Slots
 
-/-- the invariant does not look at the fault budget or the callback counter -/
-theorem OwnL.budget {s loc locB} (k : Option Nat) (h : OwnL s loc locB) :
-    OwnL { s with mem := { s.mem with budget := k } } loc locB :=
-  h.mem_step (fun _ _ hx => { hx with })
+variable {fl : Bool}
 
-theorem iStep_own {s loc locB} (op : Op) (h : OwnL s loc locB) :
-    OwnL (iStep op s).2 loc locB := by
+/-- operations that leak by design: a `Drain`/`IntoIter` that is `mem::forget`-ed -/
+def Op.leaks : Op → Bool
+  | .drain _ _ _ .leak => true
+  | .intoIter _ .leak => true
+  | _ => false
+
+/-- the invariant does not look at the callback counter; the no-leak flag requires that no fault is
+armed -/
+theorem OwnL.budget {s loc locB} (k : Option Nat) (h : OwnL fl s loc locB)
+    (hk : fl = true → k = none) :
+    OwnL fl { s with mem := { s.mem with budget := k } } loc locB :=
+  h.mem_step (fun _ _ hx => { hx with full := fun hf => ⟨hk hf, (hx.full hf).2⟩ })
+
+theorem iStep_own {s loc locB} (op : Op) (h : OwnL fl s loc locB)
+    (hleak : fl = true → op.leaks = false) (hth : fl = true → s.v.h.thin = false) :
+    OwnL fl (iStep op s).2 loc locB := by
   cases op <;> simp only [iStep, liftB]
   case push => exact iPush_own h
   case tryPush => exact iTryPush_own h
@@ -31,15 +42,20 @@ theorem iStep_own {s loc locB} (op : Op) (h : OwnL s loc locB) :
   case clone => exact iClone_own h
   case append n => exact iAppend_own n h
   case splitOff a => exact iSplitOff_own a h
-  case drain a b sc f => exact drainOp_own a b sc f h
-  case intoIter sc f => exact iIntoIter_own sc f h
+  case drain a b sc fin =>
+    exact drainOp_own a b sc fin h (fun hf => by
+      have := hleak hf; cases fin <;> simp [Op.leaks] at this ⊢)
+  case intoIter sc fin =>
+    exact iIntoIter_own sc fin h (fun hf => by
+      have := hleak hf; cases fin <;> simp [Op.leaks] at this ⊢) hth
   case reserve n => exact h
   case shrinkFit => exact h
   case roundtrip => exact iRoundtrip_own h
-  case dropVec => exact iDrop_own h
+  case dropVec => exact iDrop_own h hth
 
-theorem tStep_own {s loc locB} (op : Op) (h : OwnL s loc locB) (ht : s.v.h.thin = true)
-    (hal : s.v.h.alive = true) : OwnL (tStep op s).2 loc locB := by
+theorem tStep_own {s loc locB} (op : Op) (h : OwnL fl s loc locB) (ht : s.v.h.thin = true)
+    (hal : s.v.h.alive = true) (hleak : fl = true → op.leaks = false) :
+    OwnL fl (tStep op s).2 loc locB := by
   cases op <;> simp only [tStep, liftB]
   case push => exact tPush_own h ht hal
   case tryPush => exact h
@@ -58,8 +74,10 @@ theorem tStep_own {s loc locB} (op : Op) (h : OwnL s loc locB) (ht : s.v.h.thin 
   case clone => exact tClone_own h
   case append n => exact tAppend_own n h ht hal
   case splitOff a => exact tSplitOff_own a h
-  case drain a b sc f => exact drainOp_own a b sc f h
-  case intoIter sc f => exact h
+  case drain a b sc fin =>
+    exact drainOp_own a b sc fin h (fun hf => by
+      have := hleak hf; cases fin <;> simp [Op.leaks] at this ⊢)
+  case intoIter sc fin => exact h
   case reserve n => exact tReserve_own n h ht hal
   case shrinkFit => exact tShrinkFit_own h ht hal
   case roundtrip =>
@@ -68,41 +86,81 @@ theorem tStep_own {s loc locB} (op : Op) (h : OwnL s loc locB) (ht : s.v.h.thin 
     · exact tRoundtrip_own h ht hal r hr
   case dropVec => exact tDrop_own h ht hal
 
-/-- Every operation, with a fault injected at any callback (or none), preserves the ownership
-invariant — on normal return and after unwinding alike. -/
-theorem step_own {s : St} (k : Option Nat) (op : Op) (h : Own s) : Own (step k op s).2 := by
+/-- One step with the flag: any fault for the plain invariant; no fault and no leaking operation
+for the invariant with the no-leak clause. -/
+theorem step_ownL {s : St} (k : Option Nat) (op : Op) (h : OwnL fl s [] [])
+    (hk : fl = true → k = none) (hleak : fl = true → op.leaks = false) :
+    OwnL fl (step k op s).2 [] [] := by
   unfold step
   split
   · rename_i hal
-    have h1 : OwnL ({ s with mem := { s.mem with budget := k } } : St) [] [] := OwnL.budget k h
+    have h1 : OwnL fl ({ s with mem := { s.mem with budget := k } } : St) [] [] :=
+      OwnL.budget k h hk
     simp only
     by_cases ht : s.v.h.thin = true
     · simp only [ht, if_true]
-      exact OwnL.budget none (tStep_own op h1 ht hal)
+      exact OwnL.budget none (tStep_own op h1 ht hal hleak) (fun _ => rfl)
     · simp only [ht, Bool.false_eq_true, if_false]
-      exact OwnL.budget none (iStep_own op h1)
+      exact OwnL.budget none (iStep_own op h1 hleak (fun _ => by simpa using ht)) (fun _ => rfl)
   · exact h
+
+/-- Every operation, with a fault injected at any callback (or none), preserves the ownership
+invariant — on normal return and after unwinding alike. -/
+theorem step_own {s : St} (k : Option Nat) (op : Op) (h : Own s) : Own (step k op s).2 :=
+  step_ownL k op h (fun hf => by cases hf) (fun hf => by cases hf)
 
 theorem run_own : ∀ (hist : List (Option Nat × Op)) (s : St), Own s → Own (run hist s)
   | [], _, h => h
   | (k, op) :: hist, _, h => run_own hist _ (step_own k op h)
 
-theorem Acct.empty : Acct {} [] [] :=
+/-- Without a fault and for a non-leaking operation the no-leak invariant is preserved: whatever
+the operation does (including its own assertion panics), every id created so far is still held by
+the container or has been dropped / handed to the caller. -/
+theorem step_ownF {s : St} (op : Op) (h : OwnF s) (hleak : op.leaks = false) :
+    OwnF (step none op s).2 :=
+  step_ownL none op h (fun _ => rfl) (fun _ => hleak)
+
+/-- fault-free, leak-free histories -/
+def CleanHist (hist : List (Option Nat × Op)) : Prop :=
+  ∀ x ∈ hist, x.1 = none ∧ x.2.leaks = false
+
+instance (hist : List (Option Nat × Op)) : Decidable (CleanHist hist) := by
+  unfold CleanHist; infer_instance
+
+theorem run_ownF : ∀ (hist : List (Option Nat × Op)) (s : St), OwnF s → CleanHist hist →
+    OwnF (run hist s)
+  | [], _, h, _ => h
+  | (k, op) :: hist, s, h, hc => by
+    obtain ⟨hk, hl⟩ := hc (k, op) (List.mem_cons_self ..)
+    simp only at hk hl
+    subst hk
+    exact run_ownF hist _ (step_ownF op h hl) (fun x hx => hc x (List.mem_cons_of_mem _ hx))
+
+theorem Acct.empty : Acct fl {} [] [] :=
   { nobad := fun _ h => by simp at h, nodup := List.nodup_nil, lt := fun _ h => by simp at h,
     notout := fun _ h => by simp at h, outnd := List.nodup_nil, outlt := fun _ h => by simp at h,
     bnodup := List.nodup_nil, blive := fun _ h => by simp at h, blt := fun _ h => by simp at h,
-    bufsnd := List.nodup_nil, trout := rfl }
+    bufsnd := List.nodup_nil, trout := rfl, created := fun _ h => by simp at h,
+    full := fun _ => ⟨rfl, fun a ha => by simp at ha⟩ }
 
-theorem own_initInline (cap : Nat) : Own (initInline cap) :=
+theorem ownL_initInline (cap : Nat) : OwnL fl (initInline cap) [] [] :=
   ⟨[], uninits cap, rfl, by simp [initInline, iNew],
     ⟨fun h => by simp [initInline, iNew] at h, fun h => by simp [initInline, iNew] at h⟩,
     by simpa [initInline, iNew, prefL, bufL] using Acct.empty⟩
 
-theorem own_initThin (esz : Nat) (tracked : Bool) (h : 0 < esz) : Own (initThin esz tracked) := by
-  have h0 : OwnL ({} : St) [] [] :=
+theorem ownL_initThin (esz : Nat) (tracked : Bool) (h : 0 < esz) :
+    OwnL fl (initThin esz tracked) [] [] := by
+  have h0 : OwnL fl ({} : St) [] [] :=
     ⟨[], [], rfl, rfl, ⟨fun h => by simp at h, fun h => by simp at h⟩,
       by simpa [prefL, bufL] using Acct.empty⟩
-  exact tNewQuiet_own esz tracked h0 h
+  exact tNewQuiet_own esz tracked h0 h (fun _ => ⟨rfl, by simp [prefL]⟩)
+
+theorem own_initInline (cap : Nat) : Own (initInline cap) := ownL_initInline cap
+theorem own_initThin (esz : Nat) (tracked : Bool) (h : 0 < esz) : Own (initThin esz tracked) :=
+  ownL_initThin esz tracked h
+theorem ownF_initInline (cap : Nat) : OwnF (initInline cap) := ownL_initInline cap
+theorem ownF_initThin (esz : Nat) (tracked : Bool) (h : 0 < esz) : OwnF (initThin esz tracked) :=
+  ownL_initThin esz tracked h
 
 theorem Mem.markDrop_mem (a : Nat) (m : Mem) : a ∈ (m.markDrop a).out := by
   unfold Mem.markDrop; split
@@ -236,4 +294,36 @@ theorem tDropVec_complete {o : Vec} {s : St} (hp : (tDropVec o s).1 = false) :
       · exact Mem.free_not_mem (by rw [Mem.dropSlice_bufs]; exact hnd)
 
 
-end HipVerif.Slots
+/-- an id goes out through exactly the `drop a` and `ret a` events -/
+theorem count_outId (a : Nat) : ∀ (tr : List Ev),
+    (tr.filterMap Ev.outId).count a = tr.count (.drop a) + tr.count (.ret a)
+  | [] => rfl
+  | e :: tr => by
+    have ih := count_outId a tr
+    cases e <;> simp [List.filterMap_cons, Ev.outId, List.count_cons, ih] <;> omega
+
+/-- After the container has been dropped at the end of a history that kept the no-leak invariant,
+every id created so far is out: dropped or handed to the caller, and (ownership invariant) once. -/
+theorem all_out_after_drop {s : St} (h : OwnF s) (hal : s.v.h.alive = true) :
+    let s' := (step none .dropVec s).2
+    (∀ a, a < s'.mem.next → (s'.mem.trace.filterMap Ev.outId).count a = 1) ∧
+    (∀ e ∈ s'.mem.trace, ∀ a, e.newId = some a → a < s'.mem.next) := by
+  intro s'
+  have h' : OwnF s' := step_ownF .dropVec h rfl
+  have hdead : s'.v.len = 0 ∧ s'.v.h.alive = false := by
+    show (step none .dropVec s).2.v.len = 0 ∧ (step none .dropVec s).2.v.h.alive = false
+    unfold step
+    simp only [hal, if_true]
+    by_cases ht : s.v.h.thin = true
+    · simp [ht, tStep, liftB, tDrop]
+    · simp [ht, iStep, liftB, iDrop]
+  obtain ⟨L, rest, e1, e2, e3, e4⟩ := h'
+  have hL : L = [] := List.eq_nil_of_length_eq_zero (by omega)
+  have hp : prefL s'.v.h = [] := by simp [prefL, hdead.2]
+  subst hL
+  refine ⟨fun a ha => ?_, e4.created⟩
+  have hmem : a ∈ s'.mem.out := by
+    rcases (e4.full rfl).2 a ha with h1 | h1
+    · simp [hp] at h1
+    · exact h1
+  rw [e4.trout, e4.outnd.count, if_pos hmem]
